@@ -287,7 +287,7 @@ static void vgroup_view_sd(const char *path)
         if (sddref && ntref) {
             uint8_t rec[8 * XMAXRANK + 64]; int32 len = Hlength(fid, DFTAG_SDD, (uint16)sddref);
             if (len > 0 && len <= (int32)sizeof rec && Hgetelement(fid, DFTAG_SDD, (uint16)sddref, rec) == len) {
-                int32 wd[XMAXRANK]; memcpy(wd, v->dims, sizeof wd); if (v->appended) wd[0] = v->sdd_dim0;
+                int32 wd[XMAXRANK]; memcpy(wd, v->dims, sizeof wd); /* since 0305724 the record follows records appended in a later session */
                 printf("T xapi sdd sd %d ", ntref); put_intlist(wd, v->rank); printf(" => "); hk_hex(rec, (size_t)len); printf("\n");
                 hk_stat("sdd_records", 1);
             }
